@@ -109,7 +109,7 @@ func keyShape(c *Ctx, e *ir.Expr, depth int) ([]Seg, error) {
 		return keyShape(c, e.Args[0], depth+1)
 	case "call":
 		switch {
-		case e.Name == "builtin:append" && len(e.Args) == 2:
+		case e.Name == "builtin:append" && len(e.Args) == 2 && !(e.Args[0].Op == "makeslice" && len(e.Args[0].Args) >= 1 && e.Args[0].Args[0].Op == "const" && e.Args[0].Args[0].Name == "0"):
 			a, err := keyShape(c, e.Args[0], depth+1)
 			if err != nil {
 				return nil, err
@@ -119,6 +119,14 @@ func keyShape(c *Ctx, e *ir.Expr, depth int) ([]Seg, error) {
 				return nil, err
 			}
 			return append(a, b...), nil
+		case strings.HasSuffix(e.Name, "cosmos-sdk/types.Uint64ToBigEndian") && len(e.Args) == 1:
+			// the SDK's fixed-width encoder: make([]byte, 8) + binary.BigEndian.PutUint64
+			return []Seg{{Kind: "BE64", Arg: e.Args[0].String()}}, nil
+		case e.Name == "builtin:append" && len(e.Args) == 2 && e.Args[0].Op == "makeslice":
+			// append(make([]byte, 0, n), x...): an empty buffer followed by x
+			if z := e.Args[0].Args; len(z) >= 1 && z[0].Op == "const" && z[0].Name == "0" {
+				return keyShape(c, e.Args[1], depth+1)
+			}
 		case strings.HasSuffix(e.Name, "types/address.MustLengthPrefix") && len(e.Args) == 1:
 			return []Seg{{Kind: "LenPrefixed", Arg: e.Args[0].String()}}, nil
 		case strings.HasSuffix(e.Name, "types.AccAddress).Bytes") && len(e.Args) == 1:
@@ -129,6 +137,40 @@ func keyShape(c *Ctx, e *ir.Expr, depth int) ([]Seg, error) {
 			}
 		}
 	case "phi":
+		// a key assembled in a loop over a literal list of parts (composeKey(prefix, a, b)):
+		//   phi( append(<loop>, F(elem(list(a, b), i))), <base> )  =  <base> · F(a) · F(b)
+		if len(e.Args) == 2 {
+			for bi := 0; bi < 2; bi++ {
+				base, step := e.Args[bi], e.Args[1-bi]
+				if !(step.Op == "call" && step.Name == "builtin:append" && len(step.Args) == 2 && step.Args[0].Op == "loop") {
+					continue
+				}
+				var list *ir.Expr
+				step.Args[1].Walk(func(x *ir.Expr) bool {
+					if x.Op == "elem" && len(x.Args) == 2 && x.Args[0].Op == "list" && list == nil {
+						list = x
+						return false
+					}
+					return true
+				})
+				if list == nil {
+					break
+				}
+				out, err := keyShape(c, base, depth+1)
+				if err != nil {
+					return nil, err
+				}
+				for _, part := range list.Args[0].Args {
+					item := ir.Replace(step.Args[1], list, part)
+					sgs, err := keyShape(c, item, depth+1)
+					if err != nil {
+						return nil, err
+					}
+					out = append(out, sgs...)
+				}
+				return out, nil
+			}
+		}
 		var first []Seg
 		for i, a := range e.Args {
 			s, err := keyShape(c, a, depth+1)
